@@ -112,7 +112,7 @@ class FnTranslator:
         if opaque and not isinstance(n, (ast.Name, ast.Constant)):
             txt = ast.unparse(n)
             if txt in opaque:
-                return opaque[txt]
+                return opaque[txt].split(":")[0]
         if isinstance(n, ast.Constant):
             if isinstance(n.value, bool):
                 return "true" if n.value else "false"
@@ -260,6 +260,12 @@ class FnTranslator:
             return args[0].id
         if isinstance(f, ast.Attribute) and f.attr == "translate" and len(args) == 2 and ast.unparse(f.value) == "Affine2D.identity()":
             return f"(Aff.id.translate {self.atom(self.E(args[0]))} {self.atom(self.E(args[1]))})"
+        if isinstance(f, ast.Attribute) and f.attr == "translate" and len(args) == 2 and not n.keywords:
+            return f"({self.atom(self.E(f.value))}.translate {self.atom(self.E(args[0]))} {self.atom(self.E(args[1]))})"
+        if isinstance(f, ast.Attribute) and f.attr == "scale" and len(args) in (1, 2) and not n.keywords:
+            a0 = self.atom(self.E(args[0]))
+            a1 = self.atom(self.E(args[1])) if len(args) == 2 else a0
+            return f"({self.atom(self.E(f.value))}.scale {a0} {a1})"
         externs = self.fspec.get("externs", {})
         if name in externs:
             if self.lambda_depth:
@@ -461,8 +467,9 @@ class FnTranslator:
                 raise Untranslatable("function does not return")
         if fs.get("generic"):
             sig.insert(0, fs["generic"])
-        for pname in dict.fromkeys(fs.get("opaque", {}).values()):
-            sig.append(f"({pname} : {fs.get('opaque_type', 'Q')})")
+        for pv in dict.fromkeys(fs.get("opaque", {}).values()):
+            pname, _, ptype = pv.partition(":")
+            sig.append(f"({pname} : {ptype or fs.get('opaque_type', 'Q')})")
         lean = fs["lean"]
         txt = f"/-- translated from `{self.mod.path.name}` `{self.qual}` -/\n"
         txt += f"def {lean} {' '.join(sig)} : Py.M {fs['ret']} := do\n" + "\n".join(body) + "\n"
@@ -530,6 +537,14 @@ SPECS = {
                                  "ctors": {"BitmapMetrics": {"lean": "Py.Metrics.mk", "fields": ["x_offset", "y_offset", "line_height", "line_ascent"]}}},
     }}),
     "TrPaint": ("src/nanoemoji/paint.py", {"imports": ["NanoVerif.Model.Transformed", "NanoVerif.Generated.TrFixed"], "functions": {
+        "PaintTransform.gettransform": {"lean": "gt_transform", "ret": "Aff", "opaque": {"Affine2D(*self.transform)": "t:Aff"}},
+        "PaintTranslate.gettransform": {"lean": "gt_translate", "ret": "Aff", "opaque": {"self.dx": "dx", "self.dy": "dy"}},
+        "PaintScale.gettransform": {"lean": "gt_scale", "ret": "Aff", "opaque": {"self.scaleX": "sx", "self.scaleY": "sy"}},
+        "PaintScaleAroundCenter.gettransform": {"lean": "gt_scale_around_center", "ret": "Aff",
+                                                "opaque": {"self.scaleX": "sx", "self.scaleY": "sy", "self.center[0]": "cx", "self.center[1]": "cy"}},
+        "PaintScaleUniform.gettransform": {"lean": "gt_scale_uniform", "ret": "Aff", "opaque": {"self.scale": "s"}},
+        "PaintScaleUniformAroundCenter.gettransform": {"lean": "gt_scale_uniform_around_center", "ret": "Aff",
+                                                       "opaque": {"self.scale": "s", "self.center[0]": "cx", "self.center[1]": "cy"}},
         "transformed": {"lean": "transformed", "ret": "Enc", "style": "imperative", "params": {"transform": "Aff", "target": "PaintTarget"},
                         "ctors": _PAINT_CTORS, "externs": {"int16_safe": "int16_safe", "f2dot14_safe": "f2dot14_safe"}},
     }}),
